@@ -26,7 +26,8 @@ SPEC['C03'] = ('Bottom-up build leaves every known task up to date', ['Local2', 
   ('C03_mixed_refuted', 'Findings', 'C03_mixed_refuted',
    'recorded finding (O4): with a top-down build between the change and its report, the bottom-up build executes nothing and a task stays stale'),
 ], 'PARTIAL + recorded finding. The global statement is decided by correspondence + the probe-session oracle.')
-SPEC['C04'] = ('Bottom-up build runs only affected tasks, once, in dependency order', ['Queue', 'Local', 'BuJust', 'BuOnce', 'BuOnce2'], [
+SPEC['C04'] = ('Bottom-up build runs only affected tasks, once, in dependency order', ['Queue', 'Local', 'BuJust', 'BuOnce', 'BuOnce2', 'ExecInv', 'Cert', 'Stable', 'NoBug4All', 'NoAbort', 'NoAbortAll', 'HasOut', 'OnceAll', 'C01Witness', 'OnceWitness'], [
+  ('C04_witness_does_real_work', 'OnceWitness', 'C04_witness_does_real_work', 'non-vacuity of C04_at_most_once_static_class: for the witness program of C01 (a generator and its consumer, static class, exact checkers), after a history that built both and then changed the generator input, the bottom-up build over that input completes and executes the generator and then the consumer (newest first: [0; 1]), each once'),
   ('C04_second_execution_only_after_rescheduling', 'BuOnce2', 'bottom_up_second_execution_rescheduled', 'at-most-once, second step (BuOnce.v + NoReentry.v), for ALL programs and checkers: in the bottom-up build that opens a session after ANY history (completed or aborted), between two execution starts of the same task the task was scheduled again -- the alternative of C04_at_most_once_partial (the earlier execution still open) is excluded by C07 for all sessions'),
   ('C04_at_most_once_partial', 'BuOnce', 'bottom_up_no_duplicate_execution', 'the at-most-once clause, PARTIAL but global: for ALL programs, checkers, fuel, worlds and change sets, in ANY bottom-up build (completed or aborted) a second execution of a task t can only start if, since the previous start of t, t was scheduled again or that previous execution has not ended -- the queue bookkeeping and the "new task" shortcut never duplicate an execution (what failed before the repair of O14). Missing for the full clause: a task is not scheduled again after it ran (the hidden-dependency argument inside the class), and an executing task is not re-entered (the cycle check); both are decided by the oracle executed-twice on every run'),
   ('C04_executions_justified_all_builds', 'BuJust', 'bottom_up_executions_justified', 'GLOBAL form of "only affected tasks run": for ALL programs, checkers, fuel, ALL worlds and change sets, in the event stream of ANY bottom-up build (completed or aborted) every task execution is of a task that was scheduled earlier in this build or had no output when the build started (required for the first time), and every scheduling event is directly preceded by the end of a dependency check of that task whose checker reported inconsistency or failed (SJ)'),
@@ -206,6 +207,25 @@ RAW['C01'] += [
    'non-vacuity of C01_total: the generator/consumer instance of C01Witness.v is in the static class and its history satisfies the premises',
    """  hist_below ordx 50 hx /\\ roots_below ordx 50 opsx /\\ (forall t, WFO ordx t (Px t)) /\\ (forall t, WFP genx (fun _ => True) t [] (Px t))""",
    'destruct C01_total_premises as [A B]. split; [exact A|split; [exact B|split; [exact HWOx|exact HWFx]]].'),
+]
+
+RAW['C04'] = [
+  ('C04_at_most_once_static_class',
+   'the at-most-once clause, FULL, in the static program class (WFP + WFO, as in C20), for the bottom-up build that opens a session after ANY history (top-down, bottom-up and mixed sessions, external changes): the build does not abort and NO task is executed twice (execs = the tasks of the execution-start events of the build, newest first). OnceAll.v: invariant of the build -- nothing reachable from a task the session already holds consistent is queued or executing; an executing task has recorded requires only to consistent tasks and reads only of resources whose generator is consistent; a task is marked consistent only when everything reachable from it is settled; a task is scheduled only through a dependency on a task not reachable from the consistent set; every started task is consistent or still executing -- carried through every bottom-up interpreter on top of the NoReentry / NoBugAll / CertAll / NoAbortAll bundles and HasOut.v',
+   TOTAL_BINDERS + """  forall fuel h ch,
+  let w := new_session (snd (run_history RC OC P always fuel init_world h)) in
+  match session_bottom_up RC OC P fuel w ch with
+  | Done _ w' => NoDup (execs (trace w'))
+  | Abort _ _ => False
+  | OutOfFuel => True
+  end""",
+   'intros gen wck ord RC OC P sf always HS HWF HWO fuel h ch. exact (bottom_up_at_most_once gen wck ord RC OC P sf HS HWF HWO always fuel h ch).'),
+  ('C04_recorded_requires_have_outputs',
+   'used by it, and of independent interest (C03: "every task known to the instance"): in the static class, after ANY history every recorded require dependency in the store points to a task that has an output -- no task is left half-built (HasOut.v: in every build, for all programs, a recorded require points to a task with an output or to one that is executing; with no aborts nothing stays executing at the end of a session)',
+   TOTAL_BINDERS + """  forall fuel h,
+  let w := snd (run_history RC OC P always fuel init_world h) in
+  forall x y c st, row w x (tn y) = Some (DRequire y c st) -> get_task_output w y <> None""",
+   'intros gen wck ord RC OC P sf always HS HWF HWO fuel h w. apply (run_history_HBs gen wck ord RC OC P sf HS HWF HWO always fuel h init_world); [split; [apply L_init|intros x d X; discriminate]|apply K_init|apply Q_init|apply HBs_init].'),
 ]
 
 RAW['C05'] = [
